@@ -359,7 +359,8 @@ static void run_body(uint64_t idx, Rng& r) {
   if (idx % 2000 == 777) { giant_filter_case(r); return; }
   const bool T = G().thorough();
   const uint64_t nbits = r.chance(0.3) ? uint64_t(r.range(1, 200)) : (r.chance(0.5) ? 64 * uint64_t(r.range(1, 64)) : uint64_t(r.range(65, T ? 60000 : 9000)));
-  const uint16_t nh = uint16_t(r.chance(0.8) ? r.range(1, 7) : r.range(8, 20));
+  const uint16_t nh = uint16_t(r.chance(0.04) ? r.pick({255, 256, 257, 300, 512, 1000}) : (r.chance(0.8) ? r.range(1, 7) : r.range(8, 20)));   // num_hashes is a 16-bit parameter
+  if (nh >= 256) count("num_hashes_ge_256_cases");
   const uint64_t seed = r.chance(0.3) ? 0 : r.next();
   const uint64_t domain = 1 + r.below(r.chance(0.5) ? 50 : 3000);
   const int kind = r.chance(0.5) ? -1 : int(r.below(V_NKINDS));
